@@ -64,6 +64,8 @@ class Suite:
 
 def minimise(suite, vh, op, pred, budget=300):
     """greedy delta-minimisation: keep shrinking while pred(op, impl, model) holds"""
+    if os.environ.get("VERIF_NOMIN"):
+        return op        # bookkeeping runs (tools/seed_matrix.py) only need the verdict
     cur = op
     steps = 0
     improved = True
